@@ -113,7 +113,7 @@ static int view_cmp(uint64_t na, const uint16_t *a, uint64_t nb, const uint16_t 
 #define QTAG16(d) ((d)->f3 == QS_OFF ? ((struct qs*)(d))->b64 : (QAD*)0)
 #define QTAG8(d) ((d)->f3 == QB_OFF ? ((struct qb*)(d))->b64 : (QAD*)0)
 #ifndef QCAP
-#define QCAP 10u
+#define QCAP 12u
 #endif
 static int vpl_qeq16(QAD *a, QAD *b) { uint32_t i = 0; for (; i < QHINT16(a) && i < QHINT16(b) && i < QCAP; i++) { if (i >= a->f1) break; if (((uint16_t*)((char*)a + a->f3))[i] != ((uint16_t*)((char*)b + b->f3))[i]) return 0; }
   ASSERT(!(i == QCAP && a->f1 > QCAP), "string comparison longer than QCAP units"); return 1; }
@@ -156,15 +156,37 @@ uint8_t _ZeqRK7QStringS1_(char *a, char *b) { return d_eq(*(QAD**)a, *(QAD**)b);
    "unknown object" alternative in cbmc's value set (same block, different offsets => offset lost), whose hint is not a constant;
    the cap keeps the unrolling finite and small. Hitting the cap with both strings longer is flagged (inconclusive). */
 #ifndef QCAP
-#define QCAP 10u
+#define QCAP 12u
 #endif
 static int vpl_qcmp16(QAD *a, QAD *b) { uint32_t i = 0; for (; i < QHINT16(a) && i < QHINT16(b) && i < QCAP; i++) { if (i >= a->f1 || i >= b->f1) break; if (QCH16(a)[i] != QCH16(b)[i]) return QCH16(a)[i] < QCH16(b)[i] ? -1 : 1; }
   ASSERT(!(i == QCAP && a->f1 > QCAP && b->f1 > QCAP), "string comparison longer than QCAP units");
   return a->f1 == b->f1 ? 0 : (a->f1 < b->f1 ? -1 : 1); }
 uint8_t _ZltRK7QStringS1_(char *a, char *b) { return vpl_qcmp16(*(QAD**)a, *(QAD**)b) < 0; }
+/* case-insensitive order: Qt compares the case-FOLDED code units (Unicode tables); on ASCII folding maps A-Z to a-z and is the
+   identity elsewhere.  Units >= 0x80 are outside the model (asserted). */
+static uint16_t vp_fold16(uint16_t c) { return (c >= 'A' && c <= 'Z') ? (uint16_t)(c + 32) : c; }
+static int vpl_qcmp16ci(QAD *a, QAD *b) { uint32_t i = 0; for (; i < QHINT16(a) && i < QHINT16(b) && i < QCAP; i++) { if (i >= a->f1 || i >= b->f1) break; uint16_t x = QCH16(a)[i], y = QCH16(b)[i];
+    ASSERT(x < 0x80 && y < 0x80, "case-insensitive compare: non-ASCII unit (Unicode case folding is Qt's, not modelled)"); x = vp_fold16(x); y = vp_fold16(y); if (x != y) return x < y ? -1 : 1; }
+  ASSERT(!(i == QCAP && a->f1 > QCAP && b->f1 > QCAP), "string comparison longer than QCAP units");
+  return a->f1 == b->f1 ? 0 : (a->f1 < b->f1 ? -1 : 1); }
+static int vpl_cmp16ci(const uint16_t *a, const uint16_t *b, uint32_t n, uint32_t na, uint32_t nb) { for (uint32_t i = 0; i < H16(a, na) && i < H16(b, nb); i++) { if (i >= n) break; uint16_t x = a[i], y = b[i];
+    ASSERT(x < 0x80 && y < 0x80, "case-insensitive compare: non-ASCII unit (Unicode case folding is Qt's, not modelled)"); x = vp_fold16(x); y = vp_fold16(y); if (x != y) return x < y ? -1 : 1; } return 0; }
+uint32_t _ZNK7QString7compareERKS_N2Qt15CaseSensitivityE(char *a, char *b, uint32_t cs) { return (uint32_t)(cs == 1 ? vpl_qcmp16(*(QAD**)a, *(QAD**)b) : vpl_qcmp16ci(*(QAD**)a, *(QAD**)b)); }
+/* QString::localeAwareCompare: the collation belongs to the environment (ICU or strcoll of the current locale), so the model lets
+   the locale be an arbitrary one of two families, chosen once per run: the "C"/POSIX locale (code unit order, the same as
+   compare()) or a dictionary collation (letters compare without regard to case first; on a tie the lower-case letter sorts first,
+   as ICU root / en_US do - the opposite of the code unit order).  Non-ASCII units: outside the model (asserted). */
+static uint8_t vp_locale_set, vp_locale_dict;
+static int vpl_qcmp16tie(QAD *a, QAD *b) { uint32_t i = 0; for (; i < QHINT16(a) && i < QHINT16(b) && i < QCAP; i++) { if (i >= a->f1 || i >= b->f1) break; if (QCH16(a)[i] != QCH16(b)[i]) return QCH16(a)[i] > QCH16(b)[i] ? -1 : 1; } return 0; }
+static int qs_locale_cmp(QAD *a, QAD *b) { if (!vp_locale_set) { vp_locale_set = 1; vp_locale_dict = vp_bool(); }
+  if (!vp_locale_dict) return vpl_qcmp16(a, b);
+  int c = vpl_qcmp16ci(a, b); if (c) return c; return vpl_qcmp16tie(a, b); /* equal up to case: the first differing unit decides, lower case (the larger code unit) first */ }
+uint32_t _ZNK7QString18localeAwareCompareERKS_(char *a, char *b) { return (uint32_t)qs_locale_cmp(*(QAD**)a, *(QAD**)b); }
+uint32_t _ZN7QString18localeAwareCompareERKS_S1_(char *a, char *b) { return (uint32_t)qs_locale_cmp(*(QAD**)a, *(QAD**)b); }
 uint8_t _ZNK7QStringeqE13QLatin1String(char *a, uint32_t n, char *l) { QAD *x = *(QAD**)a; if (numS(x).isnum || x->f1 != n) return 0; return vpl_cmp16_8(qs_chars(x), (uint8_t*)l, n, x->f1, n) == 0; }
 uint32_t _ZN9QtPrivate14compareStringsE11QStringViewS0_N2Qt15CaseSensitivityE(uint64_t na, char *a, uint64_t nb, char *b, uint32_t cs) {
-  ASSERT(cs == 1, "case-insensitive compare not modelled"); return (uint32_t)view_cmp(na, (uint16_t*)a, nb, (uint16_t*)b); }
+  if (cs == 1) return (uint32_t)view_cmp(na, (uint16_t*)a, nb, (uint16_t*)b);
+  uint32_t m = (uint32_t)(na < nb ? na : nb); int c = vpl_cmp16ci((uint16_t*)a, (uint16_t*)b, m, (uint32_t)na, (uint32_t)nb); if (c) return (uint32_t)c; return na == nb ? 0 : (na < nb ? (uint32_t)-1 : 1); }
 uint8_t _ZN9QtPrivate12equalStringsE11QStringViewS0_(uint64_t na, char *a, uint64_t nb, char *b) { return view_eq(na, (uint16_t*)a, nb, (uint16_t*)b); }
 uint32_t _ZN9QtPrivate14compareStringsE11QStringView13QLatin1StringN2Qt15CaseSensitivityE(uint64_t na, char *a, uint32_t nb, char *b, uint32_t cs) {
   if (num16((uint16_t*)a, na).isnum) return 1; uint32_t m = (uint32_t)(na < nb ? na : nb);
@@ -244,6 +266,15 @@ char* _ZN7QString6appendE5QChar(char *self, uint16_t c) { qs_append_raw(self, &c
 char* _ZN7QString6appendEPK5QChari(char *self, char *p, uint32_t n) { if (p && (int32_t)n > 0) { ASSERT(!num16((uint16_t*)p, n).isnum, "append of an abstract number string"); qs_append_raw(self, (uint16_t*)p, n, hint16((uint16_t*)p, n)); } return self; }
 char* _ZN7QString6appendE13QLatin1String(char *self, uint32_t n, char *l) { QAD *a = *(QAD**)self; ASSERT(!numS(a).isnum, "append to an abstract number string"); uint32_t ha = qs_hint(a);
   QAD *d = qs_new(a->f1 + n, ha + n); vpl_copy16(d, 0, qs_chars(a), a->f1, ha); vpl_widen(d, a->f1, (uint8_t*)l, n, n); qad_deref(a); *(QAD**)self = d; return self; }
+/* toLower / toUpper: ASCII mapping; other units are outside the model (asserted): the case tables are Qt's */
+static void vpl_case16(QAD *d, QAD *s, int upper) { for (uint32_t i = 0; i < QHINT16(s) && i < QCAP; i++) { if (i >= s->f1) break; uint16_t c = QCH16(s)[i]; ASSERT(c < 0x80, "toLower/toUpper: non-ASCII unit (case tables are Qt's, not modelled)");
+    if (upper) { if (c >= 'a' && c <= 'z') c = (uint16_t)(c - 32); } else { if (c >= 'A' && c <= 'Z') c = (uint16_t)(c + 32); } SD(d)[i] = c; } }
+static void qs_case(char *ret, char *self, int upper) { QAD *s = *(QAD**)self; ASSERT(!numS(s).isnum, "toLower/toUpper of an abstract number string"); ASSERT(s->f1 <= QCAP, "toLower/toUpper longer than QCAP units");
+  QAD *d = qs_new(s->f1, QCAP); vpl_case16(d, s, upper); *(QAD**)ret = d; }
+void _ZN7QString14toLower_helperERKS_(char *ret, char *self) { qs_case(ret, self, 0); }
+void _ZN7QString14toLower_helperERS_(char *ret, char *self) { qs_case(ret, self, 0); }
+void _ZN7QString14toUpper_helperERKS_(char *ret, char *self) { qs_case(ret, self, 1); }
+void _ZN7QString14toUpper_helperERS_(char *ret, char *self) { qs_case(ret, self, 1); }
 /* UTF-8 <-> UTF-16: identity on ASCII; anything else is outside the model (asserted): the codec is Qt's */
 void _ZN7QString15fromUtf8_helperEPKci(char *ret, char *p, uint32_t n) { if (!p) { *(QAD**)ret = SHARED_NULL; return; } if ((int32_t)n < 0) n = vpl_strlen8((uint8_t*)p);
   struct numv ni = num8((uint8_t*)p, n); if (ni.isnum) { *(QAD**)ret = qs_number(ni.mag, ni.neg); return; }
